@@ -37,6 +37,12 @@ def run(ctx):
     if do_edit is None:
         return
     r5(ctx)
+    # the protocol is checked on do_edit with its exclusive private helpers spliced in (a maintainer may split it into
+    # `apply_edit` + `reparse`, or extract the splice): same paths, same calls
+    writers = {do_edit.id}
+    dv = prog.inlined(do_edit)
+    writers |= set(getattr(dv, "inlined_from", ()))
+    do_edit = dv
     # ---- R1 -------------------------------------------------------------------------------------
     parse_calls = [c for c in do_edit.calls if c.name == "parse" and c.callee.get("trait", "").endswith("::Doc")]
     if len(parse_calls) != 1:
@@ -133,9 +139,9 @@ def run(ctx):
     # ---- R3 -------------------------------------------------------------------------------------
     gsm = [c for c in prog.who_calls(r"::get_source_mut$")]
     for c in gsm:
-        ctx.ob("R3", "get_source_mut caller %s" % c.fn.id, c.fn.id == do_edit.id, "Doc::get_source_mut called", where=c.fn.loc(c.line))
+        ctx.ob("R3", "get_source_mut caller %s" % c.fn.id, c.fn.id in writers, "Doc::get_source_mut called", where=c.fn.loc(c.line))
     ctx.floor("R3", "get_source_mut callers", len(gsm), 1)
-    for field, allowed in (("inner", {do_edit.id}), ("doc", {do_edit.id})):
+    for field, allowed in (("inner", writers), ("doc", writers)):
         ws = prog.field_writes(r"^ast_grep_core::node::Root$", field)
         for f, bi, kind, line in ws:
             ctx.ob("R3", "Root.%s %s in %s" % (field, kind, f.id), f.id in allowed, "Root.%s is written/mutably borrowed" % field, where=f.loc(line))
@@ -207,7 +213,7 @@ def run(ctx):
         # the re-parse is unconditional: once perform_edit changed text and tree, no path reaches a return without parsing
         # (an edit "that cannot change the structure" — blanks for blanks — still can: ASI in JS, layout in Python)
         from ..query import path_avoiding
-        pes = [c for c in do_edit.calls if c.name == "perform_edit"]
+        pes = [c for c in do_edit.calls if c.name == "perform_edit" or is_tree_edit(c)]
         skipping = [c for c in pes if any(path_avoiding(do_edit, s2, [pc.bb], list(do_edit.return_blocks())) for s2 in do_edit.succ[c.bb])]
         ctx.ob("R4", "re-parse on every path after the edit", bool(pes) and not skipping,
                "every path from perform_edit to a return passes Doc::parse" if pes and not skipping else
